@@ -323,6 +323,14 @@ func VerifC06_ExchangeRelation()    { vBatchExchangeRelation() }
 func VerifC06_SetRelations()        { vBatchSetRelations() }
 func VerifC06_RemoveEntitiesPlain() { vBatchRemoveEntities(0, false) }
 func VerifC06_RemoveEntitiesRel()   { vBatchRemoveEntities(1, false) }
+
+// the same with concrete (pairwise different) component values: a corrupted world stays
+// cheap to evaluate for the specification, whatever the batch did to it
+func VerifC06_RemoveEntitiesRelConcrete() {
+	vConcreteValues = true
+	vBatchRemoveEntities(1, false)
+	vConcreteValues = false
+}
 func VerifC06_RemoveEntitiesRelTarget() {
 	vBatchRemoveEntities(1, true)
 }
